@@ -135,6 +135,8 @@ func c09Leaves(r *core.Run, p *core.Prog) {
 		// (2) purity
 		imp := keyStores(info, lf.fn.Body, keyParam)
 		r.Check("evaluation-pure", "leaf:"+id, where, len(imp) == 0, "evaluating the condition stores through the flow key it is given: "+strings.Join(imp, "; "))
+		shared := closureSharedWrites(info, lf.fn)
+		r.Check("evaluation-pure", "leaf:"+id+":no-shared-state", where, len(shared) == 0, "the closure writes to state captured from the enclosing function ("+strings.Join(shared, "; ")+"): the instrumented condition is evaluated concurrently by every query worker, so evaluations overwrite each other's scratch data and results depend on the schedule")
 		bf := abstractBoolFn(info, lf.fn.Body)
 		if bf.undec != "" {
 			r.Undecided(rule, "leaf:"+id, where, "closure is not of the comparison-only shape: "+bf.undec)
@@ -829,4 +831,60 @@ func upperGuards(info *types.Info, g *core.Graph, v types.Object, side string) m
 		}
 	}
 	return m
+}
+
+// closureSharedWrites lists writes inside fl to variables (or memory reachable from variables)
+// declared outside fl.
+func closureSharedWrites(info *types.Info, fl *ast.FuncLit) []string {
+	var out []string
+	outside := func(o types.Object) bool {
+		if o == nil {
+			return false
+		}
+		if _, isVar := o.(*types.Var); !isVar {
+			return false
+		}
+		return o.Pos() < fl.Pos() || o.Pos() > fl.End()
+	}
+	rootOf := func(e ast.Expr) types.Object {
+		for {
+			switch x := ast.Unparen(e).(type) {
+			case *ast.IndexExpr:
+				e = x.X
+			case *ast.SliceExpr:
+				e = x.X
+			case *ast.StarExpr:
+				e = x.X
+			case *ast.SelectorExpr:
+				e = x.X
+			default:
+				return core.ObjOf(info, e)
+			}
+		}
+	}
+	core.Walk(fl.Body, false, func(x ast.Node) bool {
+		switch s := x.(type) {
+		case *ast.AssignStmt:
+			if s.Tok == token.DEFINE {
+				return true
+			}
+			for _, l := range s.Lhs {
+				if o := rootOf(l); outside(o) {
+					out = append(out, core.Str(l)+" "+s.Tok.String()+" …")
+				}
+			}
+		case *ast.IncDecStmt:
+			if o := rootOf(s.X); outside(o) {
+				out = append(out, core.Str(s.X)+s.Tok.String())
+			}
+		case *ast.CallExpr:
+			if core.CallName(info, s) == "builtin.copy" && len(s.Args) == 2 {
+				if o := rootOf(s.Args[0]); outside(o) {
+					out = append(out, "copy("+core.Str(s.Args[0])+", …)")
+				}
+			}
+		}
+		return true
+	})
+	return out
 }
